@@ -53,7 +53,7 @@ CHECKS["C04"] = (
 CHECKS["C06"] = (
     "fault_enumeration",
     "deterministic simulation with crash-point enumeration: seeded histories, the save's real syscalls recorded at the libc boundary, every crash index x tear variant materialised and recovered by the real loader",
-    "For each generated save (index buckets via save_all/flush_*, residency DB, LRU checkpoint with/without bump and shutdown, disk-cache put) the mutating syscalls the code really issues are recorded by libc interposition; every crash index, every chosen prefix of an in-flight write (process death) and every tear variant of un-synced content (power loss: nothing/prefixes/zeros/stale) is materialised as a directory and recovered by a fresh real loader, which must succeed, show exactly S_old or S_new per object, and stay usable. Complete over crash points within each generated instance; the instances are sampled. One history in three has the object loaded back from disk before it is mutated and saved under the recorder; residency and LRU also start from 'nothing ever saved'; LRU tables up to 64 slots and residency buckets beyond one page give multi-page files; the recovered image is also checked through scan_keys()/size() and by a further flush whose whole content is compared.",
+    "For each generated save (index buckets via save_all/flush_*, residency DB, LRU checkpoint with/without bump and shutdown, disk-cache put) the mutating syscalls the code really issues are recorded by libc interposition; every crash index, every chosen prefix of an in-flight write (process death) and every tear variant of un-synced content (power loss: nothing/prefixes/zeros/stale) is materialised as a directory and recovered by a fresh real loader, which must succeed, show exactly S_old or S_new per object, and stay usable. Complete over crash points within each generated instance; the instances are sampled. One history in three has the object loaded back from disk before it is mutated and saved under the recorder; residency and LRU also start from 'nothing ever saved'; LRU tables up to 64 slots and residency buckets beyond one page give multi-page files; the recovered image is also checked through scan_keys()/size() and by a further flush whose whole content is compared. LRU: in one run in four the recovering manager and its successor have another capacity than the crashed one.",
     "Trusted: the persistence models P and D (DESIGN.md 2.5) - D is a model of a journalling file system, not an observation; the recorder (checked against strace by the seam self-test); S_old for the index is what the real loader sees before the save.",
     "3/C06",
 )
@@ -61,7 +61,7 @@ CHECKS["C06"] = (
 CHECKS["C07"] = (
     "fault_enumeration",
     "deterministic simulation with corruption enumeration: real writers -> simulated storage/transport that flips, substitutes, truncates, extends -> real readers; seeded put/corrupt/get sequences on the validating caches",
-    "Per generated artifact instance every single-bit flip (plus byte substitutions, every truncation length, extensions) inside the region its checksum is defined over is applied and the real reader must refuse; for the validating caches seeded sequences of validated put / corrupt or delete the backing file / validated get must never return bytes whose MD5 differs from the requested key and must not serve an entry after corruption was detected. Exhaustive over bit positions for artifacts <= 4 KiB; instances are sampled. Whole .idx files (pending update entries) and residency files written by the real save paths are corrupted and read back by the real loaders (IndexManager::load_all, ResidencyDb::load), not only by the stand-alone validators; the checksum bytes themselves are part of the protected region.",
+    "Per generated artifact instance every single-bit flip (plus byte substitutions, every truncation length, extensions) inside the region its checksum is defined over is applied and the real reader must refuse; for the validating caches seeded sequences of validated put / corrupt or delete the backing file / validated get must never return bytes whose MD5 differs from the requested key and must not serve an entry after corruption was detected. Exhaustive over bit positions for artifacts <= 4 KiB; instances are sampled. Whole .idx files (pending update entries) and residency files written by the real save paths are corrupted and read back by the real loaders (IndexManager::load_all, ResidencyDb::load), not only by the stand-alone validators; the checksum bytes themselves are part of the protected region. Whole .idx and residency files span one to four pages of pending entries.",
     "Trusted: the protected region per artifact is taken from the checksum's definition in the code's documentation; 'accepted with logically equal content' is not judged. Single corruptions only.",
     "3/C07",
 )
@@ -69,7 +69,7 @@ CHECKS["C07"] = (
 CHECKS["C14"] = (
     "fault_enumeration",
     "deterministic simulation under a virtual clock: scripted outcome sequences x policy grid through the real RetryPolicy::execute, every delay measured exactly on tokio's paused clock, jitter from the seeded entropy seam",
-    "Every policy of the property's grid (3000 policies, also built through from_env) is executed against all outcome sequences up to length 3 and a seeded sample of longer ones; number of invocations, stop-at-first-success/definitive-error, returned result, exact delay per attempt (hint or clamped exponential step, +<=30% jitter), absence of panics and completion within a virtual-time budget are checked per execution. Enumerates the policy grid completely per cycle; longer sequences are sampled. Run i of a batch takes policy i mod 3000 of the grid; one run in eight builds its policy from raw environment strings (huge, negative, fractional, garbage, padded, unset) through an interposed getenv; hints include u64::MAX seconds; whether an error is retryable is asked of the error itself (should_retry). One run in six additionally drives the real CdnClient::download_with_retry over the simulated HTTP transport (per-request behaviour queues: 5xx, 429 with/without/unparsable Retry-After, 4xx, refused, reset, time-out, broken body): number of requests, waits between a request's failure and the next request's start, stop conditions and the returned error are judged by the same rules.",
+    "Every policy of the property's grid (3000 policies, also built through from_env) is executed against all outcome sequences up to length 3 and a seeded sample of longer ones; number of invocations, stop-at-first-success/definitive-error, returned result, exact delay per attempt (hint or clamped exponential step, +<=30% jitter), absence of panics and completion within a virtual-time budget are checked per execution. Enumerates the policy grid completely per cycle; longer sequences are sampled. Run i of a batch takes policy i mod 3000 of the grid; one run in eight builds its policy from raw environment strings (huge, negative, fractional, garbage, padded, unset) through an interposed getenv; hints include u64::MAX seconds; whether an error is retryable is asked of the error itself (should_retry). One run in six additionally drives the real CdnClient::download_with_retry over the simulated HTTP transport (per-request behaviour queues: 5xx, 429 with/without/unparsable Retry-After, 4xx, refused, reset, time-out, broken body): number of requests, waits between a request's failure and the next request's start, stop conditions and the returned error are judged by the same rules. Retry budgets of 255-70000 (through from_env) run a few sequences to the end of the budget with an exact expected count.",
     "Trusted: tokio's paused clock (1 ms timer granularity allowed on the upper side), the classification table in the property text. For non-finite/negative multipliers only bounds are judged. Two readings of the clamp and of whether hinted retries advance the exponent are both accepted.",
     "3/C14",
 )
@@ -85,7 +85,7 @@ CHECKS["C12"] = (
 CHECKS["C11"] = (
     "exploration",
     "deterministic simulation of thread interleavings: real threads under a baton controller, seeded (random / PCT) choice of the next runner at every sched_point hook, Wing-Gong/Lowe linearizability search against the sequential cache specification, accounting check at quiescence",
-    "Seeded search over schedules of 2-3 tasks x 1-3 operations on one shared MemoryCache / DiskCache (1-2 keys, unique values, optional expired entry left by a sequential setup) or one shared DynamicContainer (write/read/query/remove on 1-2 encoding keys): every interleaving decision at the ~40 hook sites (between map operations, counter updates, temp-file open/write/fsync/rename, index update; for the container between archive write, index add and save, and inside the index temp-file protocol while the index lock is held through a try-lock wrapper) is drawn from the seed and recorded; histories stamped with a global sequence number are checked for linearizability, spurious errors, torn/foreign values, deadlock, and size()/usage against a probe of every key (container: a fresh instance on the same directory against the live one) once all tasks finished.",
+    "Seeded search over schedules of 2-3 tasks x 1-3 operations on one shared MemoryCache / DiskCache (1-2 keys, unique values, optional expired entry left by a sequential setup) or one shared DynamicContainer (write/read/query/remove on 1-2 encoding keys): every interleaving decision at the ~40 hook sites (between map operations, counter updates, temp-file open/write/fsync/rename, index update; for the container between archive write, index add and save, and inside the index temp-file protocol while the index lock is held through a try-lock wrapper) is drawn from the seed and recorded; histories stamped with a global sequence number are checked for linearizability, spurious errors, torn/foreign values, deadlock, and size()/usage against a probe of every key (container: a fresh instance on the same directory against the live one) once all tasks finished. In one run in six all puts of a key carry identical bytes.",
     "Trusted: the sequential specification (map with expired-but-present entries), the hook placement (interleavings are explored at hook granularity under sequential consistency; nothing inside a DashMap operation or a held std lock; no weak-memory effects); for the container the set specification (fixed content per key) and the rule that an Err is tolerated only for an operation overlapping a mutator of the same key.",
     "3/C11",
 )
@@ -93,7 +93,7 @@ CHECKS["C11"] = (
 CHECKS["C13"] = (
     "exploration",
     "deterministic simulation of the three-endpoint fail-over chain: real RibbitTactClient on an in-process simulated network (scripted endpoint behaviours, seeded TCP segmentation and latency, refused/reset/closed/stalled connections) under tokio's paused clock and the interposed libc clock; executable decision table + cache/TTL model + metamorphic re-runs over segmentations",
-    "Seeded search over assignments of behaviours to the three endpoints x endpoint classes x memory/disk protocol cache x TCP segmentations x scripts of query/advance/new-client/swap-behaviours: the request log must be the decision table's prefix of [https, http, tcp], the result Ok iff the stopping endpoint answered well-formed with exactly the document it served, good answers are served from cache with zero network events until the TTL and not after, failures are never cached, and the same script under other segmentations of the same TCP bytes gives identical outcomes. HTTP behaviours include every 5xx/4xx class, and a response whose body stream breaks or stalls after the status line (delivered as a genuine reqwest body error); hops can be disabled by configuration; the request actually sent and the rows returned (against the generated text, not the parser under test) are checked. One run in eight is a CDN run: the real CdnClient (download, download_archive_index) + ProtocolCache over the simulated HTTP transport with per-request behaviour queues, clock jumps around the configured TTLs and new clients on the same directory; a cached object costs no request before its TTL and one after, a failed or truncated download is never cached or returned as Ok, requests name the caller's object, bytes equal what was served.",
+    "Seeded search over assignments of behaviours to the three endpoints x endpoint classes x memory/disk protocol cache x TCP segmentations x scripts of query/advance/new-client/swap-behaviours: the request log must be the decision table's prefix of [https, http, tcp], the result Ok iff the stopping endpoint answered well-formed with exactly the document it served, good answers are served from cache with zero network events until the TTL and not after, failures are never cached, and the same script under other segmentations of the same TCP bytes gives identical outcomes. HTTP behaviours include every 5xx/4xx class, and a response whose body stream breaks or stalls after the status line (delivered as a genuine reqwest body error); hops can be disabled by configuration; the request actually sent and the rows returned (against the generated text, not the parser under test) are checked. One run in eight is a CDN run: the real CdnClient (download, download_archive_index) + ProtocolCache over the simulated HTTP transport with per-request behaviour queues, clock jumps around the configured TTLs and new clients on the same directory; a cached object costs no request before its TTL and one after, a failed or truncated download is never cached or returned as Ok, requests name the caller's object, bytes equal what was served. One disk-cache run in six has its cache files emptied or overwritten once (nothing usable is cached afterwards: the chain must be walked).",
     "Trusted: the decision table written from the property text; the stubbed transport boundary (kernel TCP, TLS, hyper and reqwest's pool are not exercised; transport failures surface as ProtocolError::Network/Timeout); 10 ms clock-coupling granularity; queries within 10 s of a TTL boundary are not judged.",
     "3/C13",
 )
